@@ -91,14 +91,19 @@ def expr_of_local(fn, l, depth=0, seen=None):
     if seen is None:
         seen = frozenset()
     if depth > MAXD or l in seen:
-        return E("local", l)
+        return E("local", l, fn)
     if 1 <= l <= fn.argc:
-        return E("local", l)
+        return E("local", l, fn)
     ds = def_sites(fn, l)
     if len(ds) != 1:
-        return E("local", l)
+        return E("local", l, fn)
     b, kind, payload = ds[0]
-    seen = seen | {l}
+    return expr_of_def(fn, l, kind, payload, depth, seen)
+
+
+def expr_of_def(fn, l, kind, payload, depth=0, seen=None):
+    """expression of one particular definition (assignment or call) of local l"""
+    seen = (seen or frozenset()) | {l}
     if kind == "call":
         return E("call", payload)
     rv = payload["rv"]
@@ -182,6 +187,20 @@ def evaluate(e, env, depth=0):
     k = e.k
     if k == "const":
         return e.a
+    if k == "local":
+        # a local with several definitions: evaluated under the definition chosen by the caller
+        # (eval_alternatives enumerates the choices); parameters and unchosen locals are unknown
+        phi = env.get("__phi__")
+        fn_ = e.b
+        if phi is not None and fn_ is not None and e.a > fn_.argc:
+            ds = def_sites(fn_, e.a)
+            if 2 <= len(ds) <= 4:
+                pk = (fn_.key, e.a)
+                phi["seen"][pk] = len(ds)
+                ch = phi["choice"].get(pk)
+                if ch is not None and ch < len(ds) and depth < 30:
+                    return evaluate(expr_of_def(fn_, e.a, ds[ch][1], ds[ch][2]), env, depth + 1)
+        return UNK
     if k == "call":
         c = e.a
         key = (c.fn.key, c.bb)
@@ -423,24 +442,70 @@ def eval_call(c, env, depth):
     return UNK
 
 
-def edges_for(fn, b, atom_call, val_a, val_b):
-    """For switch block b: the set of target blocks taken when atom=val_a but not when atom=val_b.
-    Returns (targets_a_only, targets_b_only) or None if the switch does not depend decisively on
-    the atom."""
+def eval_alternatives(e, env, cap=16):
+    """Set of values e may take when every multi-definition local met during evaluation is bound to
+    any one of its definitions (independently of the atom values in env: an over-approximation of the
+    values on real paths).  Contains UNK if some alternative cannot be evaluated."""
+    import itertools
+    phi = {"seen": {}, "choice": {}}
+    env2 = dict(env)
+    env2["__phi__"] = phi
+    evaluate(e, env2)
+    # discover transitively: choosing a definition may expose further multi-def locals
+    for _ in range(3):
+        keys = sorted(phi["seen"])
+        n = 1
+        for k_ in keys:
+            n *= phi["seen"][k_]
+        if not keys:
+            return {evaluate(e, env)}
+        if n > cap:
+            return {UNK}
+        before = dict(phi["seen"])
+        vals = set()
+        for combo in itertools.product(*[range(phi["seen"][k_]) for k_ in keys]):
+            phi["choice"] = dict(zip(keys, combo))
+            v = evaluate(e, env2)
+            try:
+                hash(v)
+            except TypeError:
+                v = UNK
+            vals.add(v)
+        if phi["seen"] == before:
+            return vals
+    return {UNK}
+
+
+def edges_for_sets(fn, b, atom_call, val_a, val_b):
+    """For switch block b: (targets possible when atom=val_a, targets possible when atom=val_b), or
+    None when some alternative cannot be evaluated."""
     t = fn.blocks[b]["t"]
     if t["k"] != "switch":
         return None
     e = expr_of_operand(fn, t["x"])
     key = (atom_call.fn.key, atom_call.bb)
-    va = evaluate(e, {key: val_a})
-    vb = evaluate(e, {key: val_b})
-    if va is UNK or vb is UNK:
+    sa_ = eval_alternatives(e, {key: val_a})
+    sb_ = eval_alternatives(e, {key: val_b})
+    if UNK in sa_ or UNK in sb_:
         return None
-    ta = switch_target(t, va)
-    tb = switch_target(t, vb)
-    if ta is None or tb is None or ta == tb:
+    ta = {switch_target(t, v) for v in sa_}
+    tb = {switch_target(t, v) for v in sb_}
+    if None in ta or None in tb:
         return None
     return ta, tb
+
+
+def edges_for(fn, b, atom_call, val_a, val_b):
+    """For switch block b: the target taken when atom=val_a but not when atom=val_b (and vice versa).
+    Returns (target_a_only, target_b_only) or None if the switch does not depend decisively on
+    the atom."""
+    r = edges_for_sets(fn, b, atom_call, val_a, val_b)
+    if r is None:
+        return None
+    ta, tb = r
+    if len(ta) != 1 or len(tb) != 1 or ta == tb:
+        return None
+    return list(ta)[0], list(tb)[0]
 
 
 def switch_target(t, v):
@@ -455,16 +520,23 @@ def switch_target(t, v):
 
 
 def decisive_edges(fn, atom_call, val_good, val_bad):
-    """All (switch_bb -> target) edges taken only when the atom has val_good, and those only when
-    it has val_bad."""
+    """All (switch_bb -> target) edges that can be taken when the atom has val_good and cannot be
+    taken when it has val_bad, and vice versa.  A switch on a value with several definitions (a
+    `let r = match ..` merge, or the return place of an inlined helper) is decided per definition:
+    an edge is good if no definition can send control there while the atom is bad."""
     good, bad = [], []
     for b in range(fn.n):
         if fn.blocks[b]["t"]["k"] != "switch":
             continue
-        r = edges_for(fn, b, atom_call, val_good, val_bad)
+        r = edges_for_sets(fn, b, atom_call, val_good, val_bad)
         if r:
-            good.append((b, r[0]))
-            bad.append((b, r[1]))
+            ta, tb = r
+            if ta == tb:
+                continue
+            for tgt in sorted(ta - tb):
+                good.append((b, tgt))
+            for tgt in sorted(tb - ta):
+                bad.append((b, tgt))
     return good, bad
 
 
